@@ -42,6 +42,7 @@ Tokens(t) ==
   CASE t.k = "basic" -> <<Id(t.n)>>
     [] t.k = "qual" -> <<Id(t.pkg), P("."), Id(t.n)>>
     [] t.k = "named" -> <<Id(t.n)>>
+    [] t.k = "inst" -> (IF t.pkg = "" THEN <<>> ELSE <<Id(t.pkg), P(".")>>) \o <<Id(t.n), P("[")>> \o TokSeq(t.args, 1) \o <<P("]")>>     \* G[int], ax.G[T], P2[K, V]
     [] t.k = "ptr" -> <<P("*")>> \o Tokens(t.e)
     [] t.k = "slice" -> <<P("["), P("]")>> \o Tokens(t.e)
     [] t.k = "array" -> <<P("["), [k |-> "n", v |-> t.len], P("]")>> \o Tokens(t.e)
@@ -63,7 +64,11 @@ IdOf(tok) == tok.v
 Is(tok, x) == tok.k = "p" /\ tok.v = x
 BasicNames == BasicKinds
 At(ts, p) == IF p <= Len(ts) THEN ts[p] ELSE P("EOF")
-RECURSIVE PType(_, _), PList(_, _, _), PFields(_, _, _), PMeths(_, _, _)
+RECURSIVE PType(_, _), PList(_, _, _), PFields(_, _, _), PMeths(_, _, _), PArgs(_, _, _)
+\* type arguments up to "]"
+PArgs(ts, p, acc) ==
+  LET r == PType(ts, p) IN
+  IF Is(At(ts, r.p), ",") THEN PArgs(ts, r.p + 1, Append(acc, r.t)) ELSE [l |-> Append(acc, r.t), p |-> r.p + 1]
 StartsType(tok) == IsId(tok) \/ (tok.k = "p" /\ tok.v \in {"*", "[", "map", "chan", "<-", "func", "struct", "interface", "("})
 \* comma separated types up to ")" ; returns [l |-> Seq(term), va |-> BOOLEAN, p]
 PList(ts, p, acc) ==
@@ -107,8 +112,12 @@ PType(ts, p) ==
     [] Is(tok, "struct") -> LET r == PFields(ts, p + 2, <<>>) IN [t |-> [k |-> "struct", fs |-> r.l], p |-> r.p]
     [] Is(tok, "interface") -> LET r == PMeths(ts, p + 2, <<>>) IN [t |-> [k |-> "iface", ms |-> r.l], p |-> r.p]
     [] IsId(tok) ->
-         IF Is(At(ts, p + 1), ".") THEN [t |-> [k |-> "qual", pkg |-> IdOf(tok), n |-> IdOf(At(ts, p + 2))], p |-> p + 3]
+         \* a type name followed by "[" is an instantiation (a field name followed by "[" is consumed by PFields before)
+         IF Is(At(ts, p + 1), ".") THEN
+              (IF Is(At(ts, p + 3), "[") THEN LET a == PArgs(ts, p + 4, <<>>) IN [t |-> [k |-> "inst", pkg |-> IdOf(tok), n |-> IdOf(At(ts, p + 2)), args |-> a.l], p |-> a.p]
+               ELSE [t |-> [k |-> "qual", pkg |-> IdOf(tok), n |-> IdOf(At(ts, p + 2))], p |-> p + 3])
          ELSE IF IdOf(tok) \in BasicNames THEN [t |-> B(IdOf(tok)), p |-> p + 1]
+         ELSE IF Is(At(ts, p + 1), "[") THEN LET a == PArgs(ts, p + 2, <<>>) IN [t |-> [k |-> "inst", pkg |-> "", n |-> IdOf(tok), args |-> a.l], p |-> a.p]
          ELSE [t |-> [k |-> "named", n |-> IdOf(tok)], p |-> p + 1]
     [] OTHER -> [t |-> [k |-> "error", at |-> p], p |-> p + 1]
 Parse(ts) == LET r == PType(ts, 1) IN IF r.p = Len(ts) + 1 THEN r.t ELSE [k |-> "error", at |-> r.p]
@@ -135,6 +144,8 @@ Apply(c, x, y) ==
                        \cup {[k |-> "struct", fs |-> <<F("A", x, tg)>>] : tg \in Tags}
                        \cup (IF x.k \in {"named", "qual"} THEN {[k |-> "struct", fs |-> <<E(x), F("B", y, "")>>]} ELSE {})
                        \cup (IF x.k \in {"named", "qual"} /\ x.n \notin {"MyIface", "I", "error"} THEN {[k |-> "struct", fs |-> <<E(Ptr(x))>>]} ELSE {})  \* no embedded pointer to an interface
+    [] c = "inst" -> {[k |-> "inst", pkg |-> "", n |-> "G", args |-> <<x>>], [k |-> "inst", pkg |-> "ax", n |-> "G", args |-> <<x>>],
+                      [k |-> "inst", pkg |-> "", n |-> "P2", args |-> <<y, x>>]}
     [] c = "iface" -> IF x.k \in {"named", "qual"} /\ x.n \in {"MyIface", "I", "error"}
                       THEN {[k |-> "iface", ms |-> <<EI(x), M("Zed")>>], [k |-> "iface", ms |-> <<M("Alpha"), EI(x)>>]}
                       ELSE {[k |-> "iface", ms |-> <<M("Alpha"), M("Beta")>>]}
